@@ -1,4 +1,4 @@
-CONSTANTS UpperClosed = TRUE FirstClosed = TRUE ContractFaithful = FALSE N = 2
+CONSTANTS UpperClosed = TRUE FirstClosed = TRUE ContractFaithful = FALSE InputInverse = TRUE N = 2
 INIT Init
 NEXT Next
 INVARIANT InvContract
